@@ -13,7 +13,8 @@ LEVEL = "exploration"
 RULE = (
     "Hypothesis: short statement sequences (1..4) whose statements need more distinct prefix / datatype / name entries "
     "than the table holds, and their non-overflowing neighbours: max_prefixes 1..4 with 1..4 distinct prefixes per "
-    "statement; max_datatypes 1..4 with generalized typed literals in s/p/o/g; max_names 8..28 with nested quoted triples "
+    "statement (in half of the cases including the empty prefix of IRIs without separator and the empty local name of IRIs that end in one); "
+    "max_datatypes 1..4 with generalized typed literals in s/p/o/g; max_names 8..28 with nested quoted triples "
     "carrying up to 27 IRIs; all three physical types, generic and (prefix and datatype cases) rdflib encoders. Oracle: serialisation "
     "raises, or the reference decoder R decodes the bytes to exactly the input; when it raises, the sequence is driven again "
     "statement by statement with the caller skipping refused statements - the file must then decode to exactly the accepted ones; when every table has at least as many "
@@ -48,6 +49,9 @@ def demand(stmt, prefixes_enabled):
 
 PFX = ["http://p%d.org/" % i for i in range(6)]
 LOC = ["l%d" % i for i in range(30)]
+# the empty prefix (IRIs with neither '/' nor '#') and the empty local name (IRIs ending in a separator) are table keys too
+PFX_E = ["", "http://p0.org/", "http://p1.org/", "http://p2.org/", "http://p3.org/", "urn:x#"]
+LOC_E = ["", "l0", "l1"]
 DTS = ["http://dt.org/t%d" % i for i in range(6)]
 
 
@@ -62,9 +66,15 @@ def overflow_case(draw):
     if kind == "prefix":
         integration = draw(st.sampled_from(["generic", "rdflib"]))
         m = draw(st.integers(1, 5))
-        pool = PFX[:m]
+        with_empty = draw(st.booleans())
+        pool = (PFX_E if with_empty else PFX)[:m + 1 if with_empty else m]
+        locs = LOC_E if with_empty else LOC[:3]
         for _ in range(n_stmts):
-            stmts.append([["iri", draw(st.sampled_from(pool)) + draw(st.sampled_from(LOC[:3]))] for _ in range(arity)])
+            s_ = []
+            for _ in range(arity):
+                iri = draw(st.sampled_from(pool)) + draw(st.sampled_from(locs))
+                s_.append(["iri", iri or "l0"])
+            stmts.append(s_)
         preset = [draw(st.sampled_from([8, 16])), draw(st.integers(1, 4)), 32]
     elif kind == "datatype":
         integration = draw(st.sampled_from(["generic", "generic", "rdflib"]))
@@ -81,7 +91,7 @@ def overflow_case(draw):
         preset = [16, draw(st.sampled_from([0, 8])), draw(st.integers(1, 4))]
     else:
         def q(depth):
-            leaf = st.builds(lambda l: ["iri", "http://p0.org/" + l], st.sampled_from(LOC))
+            leaf = st.builds(lambda l: ["iri", "http://p0.org/" + l], st.sampled_from(LOC + [""]))
             if depth == 0:
                 return leaf
             sub = st.one_of(leaf, q(depth - 1), q(depth - 1))
